@@ -443,7 +443,7 @@ package lua
 // converted into a value - the error object of an *ApiError, else the printed panic value, for ANY recovered value (the
 // type assertion is comma-ok) - and handed to the resumer as (false, value) by switchToParentThread(L, 1, true, true),
 // whose own contract says: the coroutine is killed, control and the flag false plus exactly that value go to the resumer.
-//@ func threadRun$1 [C03 C05 C06]
+//@ func threadRun$1 [C03 C05 C06 C12]
 //@ assume threadRun recovery: when the deferred closure runs, the coroutine has a resumer, a current frame and intact representation invariants (whole-execution facts, assumed)
 //@ requires L != nil && Inv_api(L) && L.G != nil && L.currentFrame != nil && L.currentFrame.Fn != nil && L.stack != nil && $inv(L.stack) && $sp(L.stack) >= 1
 //@ requires L.Parent != nil && Inv_api(L.Parent) && L.Parent != L && L.Parent.reg != L.reg && arrid(L.Parent.reg.array) != arrid(L.reg.array) && L.Parent.currentFrame != L.currentFrame
@@ -787,5 +787,25 @@ package lua
 //@ requires ls != nil && ls.reg != nil && Inv_reg(ls.reg) && ls.stack != nil && $inv(ls.stack) && ls.G != nil && MetaOK(ls) && protosOK() && fnsValid() && nargs >= 0 && ls.reg.top - nargs - 1 >= 0 && (forall k int :: ls.reg.top - nargs - 1 <= k && k < ls.reg.top ==> valOK(ls.reg.array[k]))
 //@ assert@"if ls.G.MainThread == nil {" callfn(ncalls() - 1) == fnid("(*LState).pushCallFrame") && callargLV(ncalls() - 1, 2) == lv && lv == old(ls.reg.array[ls.reg.top - nargs - 1]) && ls.currentFrame != nil && (isFn(lv) ==> ls.currentFrame.Fn == fn(lv)) && (!isFn(lv) ==> mkFn(ls.currentFrame.Fn) == old(mtEvent(ls, ls.reg.array[ls.reg.top - nargs - 1], "__call")) && callargBool(ncalls() - 1, 3))
 //@ cut@"ls.mainLoop(ls" the interpreter loop (a function-typed field of the state) runs the frame; not verified here
+//@ raises when true
+//@ modifies everything
+
+// The two interpreter loops (with and without a context) have the SAME prologue: nothing to do for an empty call stack;
+// a Go function as base frame is run by callGFunction and the loop is NOT entered afterwards; the dispatch loop is entered
+// only for a Lua base frame. (The loop itself - dispatch through jumpTable, the select on ctx.Done() - is behind the cut:
+// select is outside the verified subset.)
+//@ func mainLoop [C12]
+//@ entry-assumes L != nil && L.reg != nil && Inv_reg(L.reg) && L.stack != nil && $inv(L.stack) && $sp(L.stack) >= 0 && L.G != nil && fnsValid() && (forall i int :: 0 <= i && i < $sp(L.stack) ==> $frame(L.stack, i) != nil && $frame(L.stack, i).Fn != nil && 0 <= $frame(L.stack, i).ReturnBase && $frame(L.stack, i).ReturnBase <= $frame(L.stack, i).LocalBase && $frame(L.stack, i).LocalBase <= L.reg.top && $frame(L.stack, i).NRet >= 0 - 1)
+//@ let@"if L.currentFrame.Fn.IsG {" baseIsGo = L.currentFrame.Fn.IsG
+//@ assert@"cf = L.currentFrame" !baseIsGo
+//@ cut@"cf = L.currentFrame" the dispatch loop (a call through the jumpTable array per instruction) is not verified as a loop; each handler is
+//@ raises when true
+//@ modifies everything
+
+//@ func mainLoopWithContext [C12]
+//@ entry-assumes L != nil && L.reg != nil && Inv_reg(L.reg) && L.stack != nil && $inv(L.stack) && $sp(L.stack) >= 0 && L.G != nil && fnsValid() && (forall i int :: 0 <= i && i < $sp(L.stack) ==> $frame(L.stack, i) != nil && $frame(L.stack, i).Fn != nil && 0 <= $frame(L.stack, i).ReturnBase && $frame(L.stack, i).ReturnBase <= $frame(L.stack, i).LocalBase && $frame(L.stack, i).LocalBase <= L.reg.top && $frame(L.stack, i).NRet >= 0 - 1)
+//@ let@"if L.currentFrame.Fn.IsG {" baseIsGo = L.currentFrame.Fn.IsG
+//@ assert@"cf = L.currentFrame" !baseIsGo
+//@ cut@"cf = L.currentFrame" the dispatch loop with its select on ctx.Done() is outside the verified subset
 //@ raises when true
 //@ modifies everything
